@@ -13,6 +13,7 @@ structures) and an injected allocation failure at an arbitrary tick.
 """
 
 import copy
+import os
 import random
 import sys
 import threading
@@ -184,7 +185,9 @@ class C18(Engine):
 
         return {'spec': spec, 'codec': codec, 'numeric_enums': numeric_enums,
                 'ops': ops, 'threads': n_threads, 'schedule': schedule,
-                'inject': inject, 'seed': run_seed}
+                'inject': inject, 'seed': run_seed,
+                'granularity': os.environ.get('VSIM_C18_GRANULARITY') or (
+                    'opcode' if schedule_rng.random() < 0.1 else 'line')}
 
     # -- exhaustive single-pre-emption sweeps -----------------------------------
 
@@ -475,9 +478,20 @@ class C18(Engine):
             else:
                 inject_tick = int(case['inject']['fraction'] * total_ref)
 
-        limit = 3 * total_ref + 300000
+        opcodes = case.get('granularity') == 'opcode'
+        scale = 8 if opcodes else 1
+
+        if inject_tick is not None and 'tick' not in case['inject']:
+            inject_tick *= 5 if opcodes else 1
+
+        limit = scale * (3 * total_ref + 300000)
         scheduler = sched.Scheduler(n_threads, case['schedule'], limit,
-                                    inject_tick, total_hint=total_ref)
+                                    inject_tick,
+                                    total_hint=total_ref * (5 if opcodes
+                                                            else 1),
+                                    opcodes=opcodes)
+        result.stats['granularity-' + ('opcode' if scheduler.opcodes
+                                       else 'line')] += 1
         outcomes = {}
         mutated = {}
         tick_delta = {}
